@@ -15,6 +15,20 @@ def classify(p, b, claims):
                             'read of %s at node %d: the claimed definitions contain only the for-loop header of target %s, '
                             'the value actually read was written by node %d (the header kills its target on the '
                             'zero-trip / exit edge)' % (nm, n, nm, writer % 1000))
+        wf, wn = writer // 1000, writer % 1000
+        if wf != f and wf >= 1 and nm in p['fns'][wf - 1]['nonlocals']:
+            return ('c06:rd:value-written-by-nested-function-through-nonlocal',
+                    'read of %s at node %d of function %d: the value was assigned by node %d of the nested function %s, which declares '
+                    '%s nonlocal; the analysis is per function and attaches only the definitions made in function %d itself' % (
+                        nm, n, f, wn, p['fns'][wf - 1]['name'], nm, f))
+        if wf == f and wn:
+            par = mpsig.parents(p)
+            for k, sec, q in mpsig.path(p, wn, par):
+                if k == 'try' and sec == 'handler' and p['nodes'][q - 1]['final'] and mpsig.in_section(p, n, q, 'finally', par):
+                    return ('c06:rd:jump-in-handler-not-routed-through-finally',
+                            'read of %s in the finally block (node %d) of try statement %d: the value was assigned in an except handler '
+                            'of the same try (node %d) and reaches the finally block through a jump out of the handler, an edge the '
+                            'CFG does not have (finding C05 edge:*@try.handler->try.finally)' % (nm, n, q, wn))
         if not mine and not codes:
             return ('c06:rd:nested-read-of-enclosing-variable-has-no-definitions',
                     'read of the enclosing function\'s variable %s inside a nested function carries no definitions' % nm)
